@@ -74,6 +74,11 @@ class MonitoredContainer(Generic[T], ABC):
     def __init__(self, *args, descriptor: PropertyDescriptor, **kwargs):
         self._descriptor: PropertyDescriptor = descriptor
         self._owner_ref: Optional[weakref.ref[Symbol]] = None
+        self._created_before_first_assignment: bool = False
+        """
+        Whether an inference created this container while the owner was still being constructed, see
+        PropertyDescriptor.update_value.
+        """
         super().__init__(*args, **kwargs)
 
     def _bind_owner(self, owner) -> MonitoredContainer:
